@@ -9,7 +9,7 @@ from __future__ import annotations
 import numpy as np
 import xarray as xr
 
-from common import (POSITIONS, RULES, Layout, build_grid, canon_da, dyadic, dyadic_array,
+from common import (POSITIONS, RULES, Layout, build_grid, canon_da, dyadic, dyadic_array, fillv,
                     enc_arr, enc_grid, enc_kw, enc_rat, exc_kind, grid_axes_for_driver,
                     parse_res, same_arr)
 
@@ -38,9 +38,9 @@ def gen_case(rng, tier, i):
         ctor["boundary"] = {a["name"]: rng.choice(RULES) for a in layout.axes}
     if rng.random() < 0.5:
         if rng.random() < 0.5:
-            ctor["fill_value"] = dyadic(rng)
+            ctor["fill_value"] = fillv(rng)
         else:
-            ctor["fill_value"] = {a["name"]: dyadic(rng) for a in layout.axes}
+            ctor["fill_value"] = {a["name"]: fillv(rng) for a in layout.axes}
     # data: choose a position per axis (or leave the axis out), at least one axis in
     present = []
     dims = []
@@ -86,9 +86,9 @@ def gen_case(rng, tier, i):
         call["boundary"] = {a["name"]: rng.choice(RULES) for a in layout.axes if rng.random() < 0.6}
     r = rng.random()
     if r < 0.35:
-        call["fill_value"] = dyadic(rng)
+        call["fill_value"] = fillv(rng)
     elif r < 0.65:
-        call["fill_value"] = {a["name"]: dyadic(rng) for a in layout.axes if rng.random() < 0.6}
+        call["fill_value"] = {a["name"]: fillv(rng) for a in layout.axes if rng.random() < 0.6}
     return {"layout": {"axes": layout.axes, "extra": layout.extra}, "ctor": ctor,
             "dims": [d for d, _ in dims], "data": data.tolist(), "call": call}
 
